@@ -611,6 +611,7 @@ def run_config(cfg):
             viol, started = run_profiles(cfg, order, acc)
             acc.execs += 1
             results[order] = started
+            acc.count('startups_succeeded' if started else 'startups_refused')
             acc.outcome((cfg_key(cfg), order, started, tuple(v[0] for v in viol)))
             acc.transition(s0, repr(order), acc.state(('result', cfg_key(cfg), started)))
             for sig, msg in viol[:3]:
